@@ -206,11 +206,22 @@ pub fn check_one(sh: &mut Shard, a: &IG, lat: &Lat, verbose: bool) {
         let radius = 0.25 * crate::q::pow2(lat.sh);
         sh.class(if explicit { "delaunay:explicit_snap_radius(spacing/4)" } else { "delaunay:default_snap_radius" });
         let cfg = || if explicit { DelaunayTriangulationConfig { snap_radius: radius } } else { DelaunayTriangulationConfig::default() };
+        let container = if matches!(g, geo::Geometry::MultiPolygon(_)) { (a.coords().len() % 3) as u8 } else { 0 };
+        if container != 0 {
+            sh.class(if container == 1 { "delaunay:members_as_Vec<Polygon>" } else { "delaunay:members_as_slice" });
+        }
         let run3 = |which: u8| -> Result<Result<Vec<Triangle<f64>>, String>, String> {
             call(|| match (&g, which) {
                 (geo::Geometry::Polygon(p), 0) => TriangulateDelaunay::constrained_triangulation(p, cfg()).map_err(|e| format!("{e:?}")),
                 (geo::Geometry::Polygon(p), 1) => TriangulateDelaunay::constrained_outer_triangulation(p, cfg()).map_err(|e| format!("{e:?}")),
                 (geo::Geometry::Polygon(p), _) => TriangulateDelaunay::unconstrained_triangulation(p).map_err(|e| format!("{e:?}")),
+                // the same members as a Vec<Polygon> / a slice of polygons (their own implementations of the requirement trait)
+                (geo::Geometry::MultiPolygon(p), 0) if container == 1 => TriangulateDelaunay::constrained_triangulation(&p.0, cfg()).map_err(|e| format!("{e:?}")),
+                (geo::Geometry::MultiPolygon(p), 1) if container == 1 => TriangulateDelaunay::constrained_outer_triangulation(&p.0, cfg()).map_err(|e| format!("{e:?}")),
+                (geo::Geometry::MultiPolygon(p), _) if container == 1 => TriangulateDelaunay::unconstrained_triangulation(&p.0).map_err(|e| format!("{e:?}")),
+                (geo::Geometry::MultiPolygon(p), 0) if container == 2 => { let s: &[Polygon<f64>] = &p.0[..]; TriangulateDelaunay::constrained_triangulation(&s, cfg()).map_err(|e| format!("{e:?}")) }
+                (geo::Geometry::MultiPolygon(p), 1) if container == 2 => { let s: &[Polygon<f64>] = &p.0[..]; TriangulateDelaunay::constrained_outer_triangulation(&s, cfg()).map_err(|e| format!("{e:?}")) }
+                (geo::Geometry::MultiPolygon(p), _) if container == 2 => { let s: &[Polygon<f64>] = &p.0[..]; TriangulateDelaunay::unconstrained_triangulation(&s).map_err(|e| format!("{e:?}")) }
                 (geo::Geometry::MultiPolygon(p), 0) => TriangulateDelaunay::constrained_triangulation(p, cfg()).map_err(|e| format!("{e:?}")),
                 (geo::Geometry::MultiPolygon(p), 1) => TriangulateDelaunay::constrained_outer_triangulation(p, cfg()).map_err(|e| format!("{e:?}")),
                 (geo::Geometry::MultiPolygon(p), _) => TriangulateDelaunay::unconstrained_triangulation(p).map_err(|e| format!("{e:?}")),
@@ -250,6 +261,37 @@ pub fn check_one(sh: &mut Shard, a: &IG, lat: &Lat, verbose: bool) {
     match mono {
         Ok(mp) => {
             let pieces: Vec<Polygon<f64>> = mp.subdivisions().iter().map(|m| m.clone().into_polygon()).collect();
+            // the documented shape of a piece (MonoPoly): both chains strictly increasing in the lexicographic order,
+            // with the same first and the same last coordinate; the accessors, the consuming forms and the stored
+            // bounds say the same as the polygon form
+            {
+                use geo::BoundingRect;
+                let lex = |a: &Coord<f64>, b: &Coord<f64>| (a.x, a.y) < (b.x, b.y);
+                let owned = mp.clone().into_subdivisions();
+                sh.eval(1);
+                if owned.len() != pieces.len() {
+                    sh.violation(&format!("monotone.piece_shape|{}|-", a.kind()), detail("monotone.piece_shape", a, lat, format!("{} pieces", pieces.len()), format!("into_subdivisions(): {} pieces", owned.len()), json!({})));
+                }
+                for (i, (m, o)) in mp.subdivisions().iter().zip(owned.into_iter()).enumerate() {
+                    sh.eval(1);
+                    let (top, bot) = (m.top().clone(), m.bot().clone());
+                    let mut bad: Option<String> = None;
+                    if top.0.len() < 2 || bot.0.len() < 2 || top.0.first() != bot.0.first() || top.0.last() != bot.0.last() {
+                        bad = Some("chains do not share their end points".into());
+                    } else if !top.0.windows(2).all(|w| lex(&w[0], &w[1])) || !bot.0.windows(2).all(|w| lex(&w[0], &w[1])) {
+                        bad = Some("a chain is not strictly increasing".into());
+                    } else if o.clone().into_ls_pair() != (top.clone(), bot.clone()) {
+                        bad = Some("into_ls_pair() differs from (top(), bot())".into());
+                    } else if Some(m.bounding_rect()) != pieces[i].bounding_rect() {
+                        bad = Some(format!("bounding_rect() {:?} differs from that of the polygon form {:?}", m.bounding_rect(), pieces[i].bounding_rect()));
+                    } else if o.into_polygon() != pieces[i] {
+                        bad = Some("the owned piece differs from the borrowed one".into());
+                    }
+                    if let Some(why) = bad {
+                        sh.violation(&format!("monotone.piece_shape|{}|-", a.kind()), detail("monotone.piece_shape", a, lat, "a monotone piece: two strictly increasing chains between the same end points".into(), format!("piece {i}: {why}: top {:?} bot {:?}", top.0, bot.0), json!({})));
+                    }
+                }
+            }
             // pieces as lattice polygons
             let mut ipieces: Vec<Vec<IP>> = vec![];
             let mut foreign = None;
@@ -427,8 +469,71 @@ fn stitch_check(sh: &mut Shard, a: &IG, lat: &Lat, ts: &[Triangle<f64>], model: 
     }
 }
 
+/// A comb: k arms joined by a spine, the k-1 notches between them ending in apexes of different depths. Several
+/// notch apexes are open at the same time during a sweep (each waits, as a pending "help", on the edge below it), which
+/// random rings of <= 8 vertices never produce. Mirrored (apexes become split vertices), transposed (the sweep runs
+/// along the arms or across them), optionally with a small hole in the spine or in an arm.
+pub fn gen_comb(r: &mut Rng) -> IG {
+    let k = r.range(3, 5);
+    let w = r.range(6, 12);
+    let top = 4 * (k - 1) + 2;
+    // apex of the notch above arm i (x strictly inside), left end of arm i (left of the neighbouring apexes)
+    let apex: Vec<i64> = (0..k - 1).map(|_| r.range(2, w - 2)).collect();
+    let left: Vec<i64> = (0..k)
+        .map(|i| {
+            let mut m = w;
+            if i > 0 {
+                m = m.min(apex[(i - 1) as usize]);
+            }
+            if i < k - 1 {
+                m = m.min(apex[i as usize]);
+            }
+            r.range(0, m - 1)
+        })
+        .collect();
+    // arm i is [left_i, w] x [4i, 4i+2]; everything is written on the doubled lattice (room for a hole in the spine)
+    let mut ring: Vec<IP> = vec![(left[0], 0), (w, 0), (w, top)];
+    for i in (0..k).rev() {
+        ring.push((left[i as usize], 4 * i + 2));
+        ring.push((left[i as usize], 4 * i));
+        if i > 0 {
+            // apex of the notch below arm i: level with the arm above, in the middle, or level with the arm below
+            ring.push((apex[(i - 1) as usize], 4 * i - r.range(0, 2)));
+        }
+    }
+    // the walk ends at (left_0, 0), the first coordinate
+    let mut rings: Vec<Vec<IP>> = vec![ring.into_iter().map(|(x, y)| (2 * x, 2 * y)).collect()];
+    if r.chance(1, 3) {
+        let y = r.range(0, top - 1);
+        rings.push(vec![(2 * w - 3, 2 * y + 1), (2 * w - 1, 2 * y + 1), (2 * w - 2, 2 * y + 2), (2 * w - 3, 2 * y + 1)]);
+    }
+    let (mirror, flip, transpose) = (r.chance(1, 2), r.chance(1, 2), r.chance(1, 2));
+    let f = |p: IP| -> IP {
+        let (mut x, mut y) = p;
+        if mirror {
+            x = 2 * w - x;
+        }
+        if flip {
+            y = 2 * top - y;
+        }
+        if transpose {
+            (y, x)
+        } else {
+            (x, y)
+        }
+    };
+    IG::Polygon(rings.into_iter().map(|rg| rg.into_iter().map(f).collect()).collect())
+}
+
 pub fn gen_input(r: &mut Rng) -> (IG, Lat) {
     let g = *r.pick(&[3i64, 4, 4, 5, 6, 8]);
+    if r.chance(1, 30) {
+        let a = gen_comb(r);
+        if a.valid() {
+            let offs: [i64; 4] = [0, 0, 1000, -100_000_000];
+            return (a, Lat { ox: *r.pick(&offs), oy: *r.pick(&offs), sh: *r.pick(&[0, 0, 1, -2, -10]), shear: 0 });
+        }
+    }
     let a = loop {
         let k = *r.pick(&["Polygon", "Polygon", "PolygonHoles", "PolygonHoles", "MultiPolygon"]);
         if let Some(x) = gen_kind(r, k, g) {
@@ -453,6 +558,11 @@ pub fn run(ctx: &Ctx, sh: &mut Shard) {
         let (a, lat) = gen_input(&mut r);
         if a.n_segments() > 60 {
             continue;
+        }
+        if let IG::Polygon(rs) = &a {
+            if rs[0].len() >= 13 {
+                sh.class("input:comb(several notch apexes open at once)");
+            }
         }
         check_one(sh, &a, &lat, false);
     }
